@@ -35,6 +35,10 @@ func (s c04RealSpec) line() string {
 }
 
 func c04RealCase(col *Collector, s c04RealSpec) {
+	timedCases(col, func(col *Collector) { c04RealCase1(col, s) })
+}
+
+func c04RealCase1(col *Collector, s c04RealSpec) {
 	dir := newScratchDir("c04r")
 	defer os.RemoveAll(dir)
 	cs := Case{Replay: s.line(), Tags: []string{"real-runner", "ctx=" + s.ctx, fmt.Sprintf("k=%d", s.k)}, NonTrivial: true}
